@@ -3154,7 +3154,7 @@ static Node *primary(Token **rest, Token *tok) {
 
     if (is_integer(ty) || ty->kind == TY_PTR)
       return new_num(0, start);
-    if (is_flonum(ty))
+    if (is_flonum(ty) && ty->kind != TY_LDOUBLE)
       return new_num(1, start);
     return new_num(2, start);
   }
